@@ -659,6 +659,13 @@ func (vc *VC) frameGoal(old, cur *State, ts []modTarget) []struct {
 	name string
 	goal Term
 } {
+	return vc.frameGoalSkip(old, cur, ts, nil)
+}
+
+func (vc *VC) frameGoalSkip(old, cur *State, ts []modTarget, skip map[string]bool) []struct {
+	name string
+	goal Term
+} {
 	var out []struct {
 		name string
 		goal Term
@@ -673,7 +680,7 @@ func (vc *VC) frameGoal(old, cur *State, ts []modTarget) []struct {
 	for _, k := range allKinds {
 		key := vc.heapKey(k)
 		ho, hn := vc.get(old, key), vc.get(cur, key)
-		if ho == hn {
+		if ho == hn || skip[key] {
 			continue
 		}
 		// expected: ho with the footprint overwritten by hn's values
@@ -707,7 +714,7 @@ func (vc *VC) frameGoal(old, cur *State, ts []modTarget) []struct {
 	sort.Strings(mkeys)
 	for _, key := range mkeys {
 		ho, hn := vc.get(old, key), vc.get(cur, key)
-		if ho == hn {
+		if ho == hn || skip[key] {
 			continue
 		}
 		exp := ho
@@ -727,115 +734,6 @@ func (vc *VC) frameGoal(old, cur *State, ts []modTarget) []struct {
 
 // ---------------------------------------------------------------------------
 // loops
-
-// loopWrites computes the state keys written inside a loop.
-func (fr *Frame) loopWrites(li *loopInfo) (locals []*ssa.Alloc, heapAll bool, kinds map[string]bool, extraKeys []string) {
-	vc := fr.vc
-	kinds = map[string]bool{}
-	seenLocal := map[*ssa.Alloc]bool{}
-	var bs []*ssa.BasicBlock
-	for b := range li.blocks {
-		bs = append(bs, b)
-	}
-	sort.Slice(bs, func(i, j int) bool { return bs[i].Index < bs[j].Index })
-	touchAlloc := false
-	for _, b := range bs {
-		for _, in := range b.Instrs {
-			switch x := in.(type) {
-			case *ssa.Alloc:
-				if fr.reg[x] {
-					if !seenLocal[x] {
-						seenLocal[x] = true
-						locals = append(locals, x)
-					}
-				} else {
-					touchAlloc = true
-					for _, k := range vc.p.lay.of(x.Type().(*types.Pointer).Elem()).Kinds {
-						kinds[vc.heapKey(k)] = true
-					}
-				}
-			case *ssa.Store:
-				if a, ok := x.Addr.(*ssa.Alloc); ok && fr.reg[a] {
-					if !seenLocal[a] {
-						seenLocal[a] = true
-						locals = append(locals, a)
-					}
-				} else {
-					for _, k := range vc.p.lay.of(x.Val.Type()).Kinds {
-						kinds[vc.heapKey(k)] = true
-					}
-				}
-			case *ssa.MapUpdate:
-				mt := x.Map.Type().Underlying().(*types.Map)
-				kinds[vc.mapDomKey(mt.Key())] = true
-				kinds[vc.mapLenKey()] = true
-				for _, k := range vc.p.lay.of(mt.Elem()).Kinds {
-					kinds[vc.mapValKey(mt.Key(), k)] = true
-				}
-			case *ssa.MakeMap:
-				touchAlloc = true
-				mt := x.Type().Underlying().(*types.Map)
-				kinds[vc.mapDomKey(mt.Key())] = true
-				kinds[vc.mapLenKey()] = true
-			case *ssa.MakeSlice:
-				touchAlloc = true
-				for _, k := range vc.p.lay.of(x.Type().Underlying().(*types.Slice).Elem()).Kinds {
-					kinds[vc.heapKey(k)] = true
-				}
-			case *ssa.MakeInterface:
-				if _, isPtr := x.X.Type().Underlying().(*types.Pointer); !isPtr {
-					if _, isI := x.X.Type().Underlying().(*types.Interface); !isI {
-						touchAlloc = true
-						for _, k := range vc.p.lay.of(x.X.Type()).Kinds {
-							kinds[vc.heapKey(k)] = true
-						}
-					}
-				}
-			case *ssa.Range:
-				extraKeys = append(extraKeys, fr.rangeKey(x), fr.rangeKey(x)+":dom0")
-			case *ssa.Next:
-				if rg, ok := x.Iter.(*ssa.Range); ok {
-					extraKeys = append(extraKeys, fr.rangeKey(rg))
-				}
-			case *ssa.Convert:
-				if vc.p.lay.size(x.Type()) == 4 && vc.p.lay.size(x.X.Type()) == 1 {
-					touchAlloc = true
-					kinds[vc.heapKey(KI)] = true
-				}
-			case *ssa.MakeClosure, *ssa.Defer, *ssa.Go:
-				touchAlloc = true
-			case ssa.CallInstruction:
-				c := x.Common()
-				if b, ok := c.Value.(*ssa.Builtin); ok {
-					switch b.Name() {
-					case "append":
-						touchAlloc = true
-						for _, k := range vc.p.lay.of(c.Args[0].Type().Underlying().(*types.Slice).Elem()).Kinds {
-							kinds[vc.heapKey(k)] = true
-						}
-					case "delete":
-						mt := c.Args[0].Type().Underlying().(*types.Map)
-						kinds[vc.mapDomKey(mt.Key())] = true
-						kinds[vc.mapLenKey()] = true
-					case "copy", "clear":
-						heapAll = true
-					}
-					continue
-				}
-				// any other call: conservatively everything the heap holds,
-				// unless the callee is known to be effect-free
-				if fr.callIsPure(c) {
-					continue
-				}
-				heapAll = true
-			}
-		}
-	}
-	if touchAlloc {
-		kinds[vc.allocKey()] = true
-	}
-	return
-}
 
 func (fr *Frame) callIsPure(c *ssa.CallCommon) bool {
 	vc := fr.vc
@@ -894,7 +792,9 @@ func (fr *Frame) loopHead(st *State, li *loopInfo) {
 		}
 	}
 	// 2. havoc what the loop writes
-	locals, heapAll, kinds, extra := fr.loopWrites(li)
+	pre := st.clone()
+	eff := fr.loopEffects(pre, li)
+	locals := eff.locals
 	for _, a := range locals {
 		lay := vc.p.lay.of(a.Type().(*types.Pointer).Elem())
 		for i := range lay.Kinds {
@@ -905,13 +805,13 @@ func (fr *Frame) loopHead(st *State, li *loopInfo) {
 			}
 		}
 	}
-	for _, k := range extra {
+	for _, k := range eff.extraKeys {
 		if _, ok := st.v[k]; ok && !strings.HasSuffix(k, ":dom0") {
 			vc.havocKey(st, k)
 		}
 	}
 	oldAlloc := vc.get(st, vc.allocKey())
-	if heapAll {
+	if eff.heapAll {
 		vc.havocAll(st)
 		for k := range vc.keySort {
 			if strings.HasPrefix(k, "g.") && !strings.HasPrefix(k, "g.calls.") {
@@ -922,39 +822,28 @@ func (fr *Frame) loopHead(st *State, li *loopInfo) {
 		}
 	} else {
 		var ks []string
-		for k := range kinds {
+		for k := range eff.kinds {
 			ks = append(ks, k)
 		}
 		sort.Strings(ks)
 		for _, k := range ks {
 			vc.havocKey(st, k)
 		}
-		if kinds["alloc"] {
+		if eff.kinds["alloc"] {
 			na := vc.get(st, "alloc")
 			vc.assumeRaw(fmt.Sprintf("(forall ((r!q Int)) (! (=> (select %s r!q) (select %s r!q)) :pattern ((select %s r!q))))", oldAlloc, na, na))
 		}
-		// counters bumped in the loop
-		for _, b := range fr.fn.Blocks {
-			if !li.blocks[b] {
-				continue
-			}
-			for _, in := range b.Instrs {
-				if ci, ok := in.(ssa.CallInstruction); ok {
-					key := ""
-					if ci.Common().IsInvoke() {
-						key = ifaceMethodKey(ci.Common())
-					} else if f, ok := ci.Common().Value.(*ssa.Function); ok {
-						key = funcKey(f)
-					}
-					for _, lab := range vc.p.countOf[key] {
-						k := "g.calls." + lab
-						vc.ensureKey(k, "Int")
-						o := vc.get(st, k)
-						n := vc.havocKey(st, k)
-						vc.assumeRaw(tLe(o, n))
-					}
-				}
-			}
+		// syntactic frame: objects allocated before the loop and not written
+		// by any store of the loop keep their content
+		for _, g := range vc.frameGoalSkip(pre, st, eff.targets, eff.unresolved) {
+			vc.assume(st, g.goal)
+		}
+		for _, lab := range eff.counters {
+			k := "g.calls." + lab
+			vc.ensureKey(k, "Int")
+			o := vc.get(st, k)
+			n := vc.havocKey(st, k)
+			vc.assumeRaw(tLe(o, n))
 		}
 	}
 	// 3. assume frame and invariants for an arbitrary iteration
